@@ -399,6 +399,13 @@ class ExprMixin(object):
         hook = self._op_hook(type(op).__name__, a, b)
         if hook is not None:
             return hook.t
+        if isinstance(a.ty, Set) and isinstance(b.ty, Set) and a.ty == b.ty and isinstance(op, (ast.Lt, ast.LtE, ast.Gt, ast.GtE)):
+            # set comparisons are the inclusion order
+            lo, hi = (a, b) if isinstance(op, (ast.Lt, ast.LtE)) else (b, a)
+            sub = core.forall_ty(a.ty.elem, lambda x: z3.Implies(core.smem_t(lo, x), core.smem_t(hi, x)))
+            if isinstance(op, (ast.LtE, ast.GtE)):
+                return sub
+            return z3.And(sub, z3.Not(core.forall_ty(a.ty.elem, lambda x: z3.Implies(core.smem_t(hi, x), core.smem_t(lo, x)))))
         x, y = self.num(a), self.num(b)
         if isinstance(op, ast.Lt):
             return x < y
